@@ -427,7 +427,10 @@ def run(ctx) -> None:
     from ..effects import Effects
     ctx.guard_as("R08.11", r20_2, Effects(ctx.eng.prog, ctx.eng.cg))  # the per-algorithm parameters (name, hash, key size) are those of the model in use: models keep no state  # the JOSE header of a recipient is the union of protected, shared unprotected and per-recipient members
     from .c19 import r19_4_5
-    ctx.guard_as("R08.13", r19_4_5)  # "any spelling of the protected-header JSON": the header codec reads UTF-8 JSON, not an ASCII subset
+    ctx.guard_as("R08.13", r19_4_5)
+    from .c17 import r17_1, r17_2_5
+    ctx.guard_as("R08.14", r17_1)  # "raw-DEFLATE framing": one bounded inflate whose completion is tested before the data is used
+    ctx.guard_as("R08.14", r17_2_5)  # "any spelling of the protected-header JSON": the header codec reads UTF-8 JSON, not an ASCII subset
     ctx.guard(r08_1)
     ctx.guard(r02_2_3)  # R08.2 consume side: reported under R02.2 / R02.3
     ctx.guard(r08_2_produce)
